@@ -161,7 +161,8 @@ pub fn base_records(name: &str) -> Vec<(u32, Val)> {
 pub fn package(name: &str, files: &[FFile], archive: Vec<u8>, compressor: Option<&str>, long_sizes: bool) -> Parts {
     let mut main = base_records(name);
     main.extend(file_records(files, long_sizes));
-    let total: u64 = files.iter().map(|f| f.archive_data().len() as u64).sum();
+    // as rpmbuild computes it: the sizes of the regular files
+    let total: u64 = files.iter().filter(|f| f.mode & 0o170000 == 0o100000).map(|f| f.content.len() as u64).sum();
     if long_sizes {
         main.push((5009, Val::Int64(vec![total])));
     } else {
@@ -179,6 +180,29 @@ pub fn package(name: &str, files: &[FFile], archive: Vec<u8>, compressor: Option
     };
     let (x, _) = with_digests(&p, &DigestPlan { md5: D::Correct, sha1: D::Correct, sha256: D::Correct, payload: D::Correct, algo: 8 });
     split(&x).expect("foreign package splits")
+}
+
+/// The same newc archive with the hexadecimal header fields printed in upper case (`%08X`, as GNU cpio and
+/// the kernel's gen_init_cpio write them).
+pub fn newc_upper_hex(a: &[u8]) -> Vec<u8> {
+    let mut out = a.to_vec();
+    let mut o = 0usize;
+    while o + 110 <= out.len() && &out[o..o + 5] == b"07070" {
+        let field = |k: usize, buf: &[u8]| usize::from_str_radix(std::str::from_utf8(&buf[o + 6 + 8 * k..o + 14 + 8 * k]).unwrap_or("0"), 16).unwrap_or(0);
+        let (filesize, namesize) = (field(6, &out), field(11, &out));
+        for b in out[o + 6..o + 110].iter_mut() {
+            b.make_ascii_uppercase();
+        }
+        let mut next = o + 110 + namesize;
+        next = (next + 3) / 4 * 4;
+        next += filesize;
+        next = (next + 3) / 4 * 4;
+        if next <= o {
+            break;
+        }
+        o = next;
+    }
+    out
 }
 
 pub fn sample_files() -> Vec<FFile> {
